@@ -548,7 +548,7 @@ def items_for(tier):
     for o in ops_:
         per_kind.setdefault(o[0], []).append(o)
     for k, lst in per_kind.items():
-        step = max(1, len(lst) // (40 if tier == "quick" else 200))
+        step = max(1, len(lst) // (40 if tier == "quick" else 200))  # foreign documents: a spread over every op kind
         for i, o in enumerate(lst[::step]):
             if "FuncV" in repr(o):
                 continue  # the reference encoder has no document for embedded function bodies
@@ -565,9 +565,12 @@ def items_for(tier):
     return items
 
 
+GRAMMAR = {"quick": "thorough", "thorough": "deep"}  # the term grammars are cheap: quick already uses the larger one
+
+
 def run(tier: str, seed: int) -> Result:
     col = Collector()
-    items = items_for(tier)
+    items = items_for(GRAMMAR[tier])
     nchunks = 64
     for res in pmap(_chunk, [items[i::nchunks] for i in range(nchunks)]):
         for sig, msg, it in res:
